@@ -1318,12 +1318,9 @@ impl Machine {
                         continue;
                     }
                     let max_idx = len.saturating_sub(1);
-                    let index_int = if !index_val.is_finite() {
-                        0
-                    } else {
-                        let raw_idx = index_val as i64;
-                        raw_idx.clamp(0, max_idx as i64) as usize
-                    };
+                    // `as i64` saturates (+inf -> last element, -inf and NaN -> first), like the
+                    // saturating conversion of the WASM back end
+                    let index_int = (index_val as i64).clamp(0, max_idx as i64) as usize;
                     let start = index_int * elem_word_size;
                     let end = start + elem_word_size;
                     let buffer = &adata.data[start..end];
@@ -1344,12 +1341,9 @@ impl Machine {
                         continue;
                     }
                     let max_idx = len.saturating_sub(1);
-                    let index_int = if !index_val.is_finite() {
-                        0
-                    } else {
-                        let raw_idx = index_val as i64;
-                        raw_idx.clamp(0, max_idx as i64) as usize
-                    };
+                    // `as i64` saturates (+inf -> last element, -inf and NaN -> first), like the
+                    // saturating conversion of the WASM back end
+                    let index_int = (index_val as i64).clamp(0, max_idx as i64) as usize;
                     let (_range2, buf_src2) = self.get_stack_range(val as _, elem_word_size as _);
                     let src_words = buf_src2.to_vec();
                     let adata = self.arrays.get_array_mut(array);
